@@ -11,7 +11,6 @@ import (
 	"strings"
 
 	g "github.com/zenon-network/go-zenon/chain/genesis/mock"
-	"github.com/zenon-network/go-zenon/rpc/api"
 	"github.com/zenon-network/go-zenon/rpc/api/embedded"
 	rpcserver "github.com/zenon-network/go-zenon/rpc/server"
 )
@@ -45,6 +44,9 @@ func init() {
 				c.Hit(line[4:])
 			case strings.HasPrefix(line, "FAIL "):
 				c.Fail("%s", line[5:])
+			case strings.HasPrefix(line, "LINE "):
+				// one structured request with the shape of the real server's answer: recomputed by the Lean dispatch model
+				c.Emit(line[5:])
 			case line == "CHILD-FINISHED":
 				finished = true
 			}
@@ -90,11 +92,16 @@ func rpcServerChild(seed int64, nreq int) {
 				c.Fail("rpcserver: register: %v", err)
 			}
 		}
-		must(srv.RegisterName("ledger", api.NewLedgerApi(n.Z)))
-		must(srv.RegisterName("embedded.token", embedded.NewTokenApi(n.Z)))
-		must(srv.RegisterName("embedded.pillar", embedded.NewPillarApi(n.Z, true)))
-		must(srv.RegisterName("embedded.plasma", embedded.NewPlasmaApi(n.Z)))
-		must(srv.RegisterName("embedded.stake", embedded.NewStakeApi(n.Z)))
+		// every service of rpc.GetApis("ledger", "embedded") — the registry that f_rpcserver.go describes to the Lean model
+		for _, a := range rpcServedApis(n.Z) {
+			svc := a.Service
+			if a.Namespace == "embedded.pillar" {
+				svc = embedded.NewPillarApi(n.Z, true) // synchronous weights (the node's variant refreshes them in the background)
+			}
+			must(srv.RegisterName(a.Namespace, svc))
+		}
+		registry, err := rpcRegistryFacts()
+		must(err)
 
 		H := n.Height()
 		fmo, _ := n.Chain().GetFrontierMomentumStore().GetFrontierMomentum()
@@ -176,7 +183,7 @@ func rpcServerChild(seed int64, nreq int) {
 				return []byte("\x00\xff\xfe{}")
 			}
 		}
-		sb := &batchGen{c: c, valid: valid, addr: addr}
+		sb := &batchGen{c: c, valid: valid, addr: addr, registry: registry}
 		for i := 0; i < c.N; i++ {
 			var body []byte
 			kind := "mutated"
